@@ -39,10 +39,13 @@ class Spin(BaseException):
 
 
 class Budget:
-    """Wall-clock guard for code that may spin: SIGALRM raises Spin.
+    """Guard for code that may spin: a timer on the CPU time of this process (SIGPROF) raises Spin.
 
-    Pure-Python loops are interruptible by signals, so this is reliable for the
-    dispatch loops of rfb.py / loggingproxy.py."""
+    CPU time, not wall-clock time: a spinning dispatch loop burns CPU and is cut off after `seconds` of it, while a process
+    that is merely starved by other jobs on a loaded machine is not (a wall-clock budget produced a false "hang" when
+    forty checks ran side by side).  A generous wall-clock alarm stays as a backstop for code that blocks without
+    computing.  Pure-Python loops are interruptible by signals, so this is reliable for the dispatch loops of rfb.py /
+    loggingproxy.py."""
 
     def __init__(self, seconds: float = 2.0):
         self.seconds = seconds
@@ -51,15 +54,19 @@ class Budget:
         raise Spin()
 
     def __enter__(self):
-        self._old = signal.signal(signal.SIGALRM, self._fire)
+        self._old = signal.signal(signal.SIGPROF, self._fire)
+        self._old_alrm = signal.signal(signal.SIGALRM, self._fire)
         # repeating: code under test may swallow the exception (a bare `except:` around a callback, as in Twisted's
-        # Deferred); the alarm then fires again every 50 ms until the exception escapes
-        signal.setitimer(signal.ITIMER_REAL, self.seconds, 0.05)
+        # Deferred); the timer then fires again every 50 ms until the exception escapes
+        signal.setitimer(signal.ITIMER_PROF, self.seconds, 0.05)
+        signal.setitimer(signal.ITIMER_REAL, max(90.0, 30 * self.seconds), 0.05)
         return self
 
     def __exit__(self, *exc):
+        signal.setitimer(signal.ITIMER_PROF, 0)
         signal.setitimer(signal.ITIMER_REAL, 0)
-        signal.signal(signal.SIGALRM, self._old)
+        signal.signal(signal.SIGPROF, self._old)
+        signal.signal(signal.SIGALRM, self._old_alrm)
         return False
 
 
